@@ -2,36 +2,94 @@
   C18 — identifier / qualifier extraction is order-independent and priority-respecting.
 
   Property theorems only (helper lemmas: Proofs/Qual*.lean).  `Model.Qual.*` mirrors io/features/__init__.py,
-  io/gff3/parser.py and the locus-tag grouping of io/genbank/parser.py; `Gen.featureNameQualifiers` /
-  `Gen.featureIdQualifiers` are regenerated from the enums on every run; `Spec.Qual.ok*` are the reference
-  predicates the spec driver evaluates on the real library's answers.  `ansQ` = the observable answer
-  (`none` = raised).  Quantification is over ALL dictionaries (any length, any keys, any values, any case).
+  io/gff3/parser.py and the locus-tag grouping / gene biotype of io/genbank/parser.py.  Every constant the model
+  reads is a GENERATED table (`Gen.*`, regenerated from /repo on every run): the two priority enums, the two regex
+  key sets, FEATURE_TYPE_IDENTIFIERS, the enums behind BIOCANTOR_QUALIFIERS_REGEX, the GenBank feature-type enums.
+  `Spec.Qual.ok*` are the reference predicates the spec driver evaluates on the real library's answers.
+  `ansQ` = the observable answer (`none` = raised).  Quantification is over ALL dictionaries / records.
 
-  Two rules are modelled: `Rule.asCoded` (what /repo does today) and `Rule.repaired`
-  (`feature_key is None` instead of `not feature_key`; `\Z` instead of `$`).
+  `extract`, `filterSort`, `geneBiotype` are the code AS IT IS NOW (`currentRule = ⟨false, true⟩`: F-C18b repaired in
+  5ed9681, F-C18a cannot be repaired — pinned tests encode it; `currentFilterExact = true`: 245297c; biotype
+  tie-break by name: 3370634).  The `…_before_repair` theorems pin the old behaviour as regression facts.
 -/
-import BioCantor.Proofs.QualFilter
+import BioCantor.Proofs.QualBiotype
 namespace BioCantor.Props.C18
 open BioCantor BioCantor.Spec.Qual BioCantor.Model.Qual BioCantor.Proofs.Qual
 
-/-- TIE: the regenerated enum tables agree with the documented priority order: same keys as the regexes,
-    every key a member of its enum, enum values increasing along the documented list, value 0 exactly for
-    the first key.  Reordering a priority in /repo makes this (and everything below) fail to compile. -/
+/-! ### ties to the generated constants -/
+
+/-- TIE: the generated priority enums and the generated regex key sets agree with the documented priority order:
+    same keys, every key a member of its enum, enum values increasing along the documented list, value 0 exactly
+    for the first key.  Reordering a priority or changing a key set in /repo makes this fail to compile. -/
 theorem gen_tables_match_documented_order :
-    famOK nameOrder nameRegexKeys Gen.featureNameQualifiers = true ∧
-    famOK idOrder idRegexKeys Gen.featureIdQualifiers = true :=
+    famOK nameOrder Gen.features_FEATURE_INTERVAL_NAME_QUALIFIERS Gen.featureNameQualifiers = true ∧
+    famOK idOrder Gen.features_FEATURE_INTERVAL_ID_QUALIFIERS Gen.featureIdQualifiers = true :=
   ⟨nameFamOK, idFamOK⟩
 
-/-- T1 (repaired rule): for every dictionary with distinct keys whose recognised keys carry a non-empty first
-    value, the call does not raise; name and ID are each the first value of a present key of LEAST rank in the
-    documented list (keys matched exactly, ignoring case); with no recognised key the `/note` word is used. -/
-theorem extract_spec (qs : QDict) (hd : extractDomain qs = true) :
+/-- TIE: the generated FEATURE_TYPE_IDENTIFIERS is the documented set `_class`, `gbkey`, `_type`. -/
+theorem type_identifiers_tie :
+    sameSet Gen.features_FEATURE_TYPE_IDENTIFIERS specTypePatterns = true := typeIds_tie
+
+/-- TIE: the alternatives of BIOCANTOR_QUALIFIERS_REGEX, computed from the generated enums BioCantorQualifiers and
+    BioCantorGFF3ReservedQualifiers (`{name.lower(), value}` over the non-alias members), are the documented
+    reserved keys. -/
+theorem reserved_terms_tie : sameSet biocantorQualifierTerms reservedKeys = true := terms_tie
+
+/-- TIE: the GenBank feature types behind the four kinds of the grouping model (gene / transcript / CDS / other,
+    as the harness sends them: gene, mRNA, CDS, exon) are what the generated enums say: all four are gene-like
+    features; `gene` is the gene type, `mRNA` a transcript type, `CDS` the CDS type, `exon` none of these. -/
+theorem genbank_kinds_tie :
+    (["gene".toList, "mRNA".toList, "CDS".toList, "exon".toList].all Gen.genbank_GENBANK_GENE_FEATURES.contains) = true ∧
+    Gen.genbank_GeneFeatures.map (·.2) = ["gene".toList] ∧
+    (Gen.genbank_TranscriptFeatures.map (·.2)).contains "mRNA".toList = true ∧
+    Gen.genbank_GeneIntervalFeatures.lookup "CDS".toList = some "CDS".toList ∧
+    (Gen.genbank_GeneFeatures ++ Gen.genbank_TranscriptFeatures).all (fun m => m.2 != "exon".toList && m.2 != "CDS".toList) = true ∧
+    Gen.genbank_KnownQualifiers.lookup "LOCUS_TAG".toList = some "locus_tag".toList := by
+  decide +kernel
+
+/-! ### extract_feature_name_id -/
+
+/- FULL STATEMENT (does NOT hold for the code as it is — F-C18a, witness below):
+     ∀ qs, extractDomain qs → okExtract qs (ansQ (extract qs)) = true
+   Proved part: all dictionaries without a rank-0 key (feature_name / feature_id in any letter case).
+   Missing: exactly the inputs on which the real code deviates (a rank-0 key followed by another key of its
+   family).  F-C18a cannot be repaired in /repo: three pinned upstream tests encode the current answers. -/
+
+/-- T1 (the code as it is): for every dictionary with distinct keys whose recognised keys carry a non-empty first
+    value and that holds no rank-0 key, the call does not raise; name and ID are each the first value of a present
+    key of LEAST rank in the documented list (keys matched exactly, ignoring case); with no recognised key the
+    `/note` word is used. -/
+theorem extract_spec_partial (qs : QDict) (hd : extractDomain qs = true)
+    (hz : ∀ e ∈ qs, rank nameOrder e.1 ≠ some 0 ∧ rank idOrder e.1 ≠ some 0) :
+    okExtract qs (ansQ (extract qs)) = true := by
+  unfold extract
+  rw [extract_rule_eq currentRule rfl qs (fun e he => noZero_of_rank (hz e he).1 (hz e he).2)]
+  exact extract_repaired_ok qs hd
+
+/-- T2 (the code as it is): ORDER INDEPENDENCE — every permutation of such a dictionary gives the same (name, id),
+    provided no two present keys have the same rank (`gene` next to `GENE` is inherently order dependent). -/
+theorem extract_order_independent_partial (qs qs' : QDict) (hp : qs.Perm qs') (hd : extractDomain qs = true)
+    (h1 : ranksDistinct nameOrder qs = true) (h2 : ranksDistinct idOrder qs = true)
+    (hz : ∀ e ∈ qs, rank nameOrder e.1 ≠ some 0 ∧ rank idOrder e.1 ≠ some 0) :
+    extract qs' = extract qs := by
+  have ha := extract_spec_partial qs hd hz
+  have hb := extract_spec_partial qs' (extractDomain_perm hp hd) (fun e he => hz e (hp.mem_iff.mpr he))
+  have hk : keysDistinct qs = true := by
+    simp only [extractDomain, Bool.and_eq_true] at hd; exact hd.1
+  rw [← okExtract_perm hp hk] at hb
+  have := okExtract_unique h1 h2 hb ha
+  apply ansQ_inj _ this
+  cases h : ansQ (extract qs') with
+  | none => rw [h] at hb; cases hb
+  | some _ => rfl
+
+/-- T1 under the one-line patch `feature_key is None` (not applicable upstream, see above): the FULL statement. -/
+theorem extract_spec_if_patched (qs : QDict) (hd : extractDomain qs = true) :
     okExtract qs (ansQ (extractWith Rule.repaired qs)) = true :=
   extract_repaired_ok qs hd
 
-/-- T2 (repaired rule): ORDER INDEPENDENCE — every permutation of the dictionary gives the same (name, id),
-    provided no two present keys have the same rank (`gene` next to `GENE` is inherently order dependent). -/
-theorem extract_order_independent (qs qs' : QDict) (hp : qs.Perm qs') (hd : extractDomain qs = true)
+/-- T2 under the same patch: full order independence. -/
+theorem extract_order_independent_if_patched (qs qs' : QDict) (hp : qs.Perm qs') (hd : extractDomain qs = true)
     (h1 : ranksDistinct nameOrder qs = true) (h2 : ranksDistinct idOrder qs = true) :
     extractWith Rule.repaired qs' = extractWith Rule.repaired qs := by
   have ha := extract_repaired_ok qs hd
@@ -45,50 +103,27 @@ theorem extract_order_independent (qs qs' : QDict) (hp : qs.Perm qs') (hd : extr
   | none => rw [h] at hb; cases hb
   | some _ => rfl
 
-/- FULL STATEMENT for the code as it is (does NOT hold — F-C18a, F-C18b, witnesses below):
-     ∀ qs, extractDomain qs → okExtract qs (ansQ (extractWith Rule.asCoded qs)) = true
-   Proved part: all dictionaries without a rank-0 key (feature_name / feature_id in any case) and without a
-   key ending in a newline.  Missing: exactly the inputs on which the real code deviates. -/
-
-/-- T1 for the code as written, on inputs without a rank-0 key and without newline-terminated keys. -/
-theorem extract_spec_asCoded_partial (qs : QDict) (hd : extractDomain qs = true)
-    (hz : ∀ e ∈ qs, rank nameOrder e.1 ≠ some 0 ∧ rank idOrder e.1 ≠ some 0 ∧ e.1.getLast? ≠ some '\n') :
-    okExtract qs (ansQ (extractWith Rule.asCoded qs)) = true := by
-  rw [extract_coded_eq qs (fun e he => noZero_of_rank (hz e he).1 (hz e he).2.1 (hz e he).2.2)]
-  exact extract_repaired_ok qs hd
-
-/-- T2 for the code as written, same restriction. -/
-theorem extract_order_independent_asCoded_partial (qs qs' : QDict) (hp : qs.Perm qs') (hd : extractDomain qs = true)
-    (h1 : ranksDistinct nameOrder qs = true) (h2 : ranksDistinct idOrder qs = true)
-    (hz : ∀ e ∈ qs, rank nameOrder e.1 ≠ some 0 ∧ rank idOrder e.1 ≠ some 0 ∧ e.1.getLast? ≠ some '\n') :
-    extractWith Rule.asCoded qs' = extractWith Rule.asCoded qs := by
-  have hz' : ∀ e ∈ qs', NoZero e := fun e he =>
-    let h := hz e (hp.mem_iff.mpr he); noZero_of_rank h.1 h.2.1 h.2.2
-  rw [extract_coded_eq qs (fun e he => noZero_of_rank (hz e he).1 (hz e he).2.1 (hz e he).2.2),
-    extract_coded_eq qs' hz']
-  exact extract_order_independent qs qs' hp hd h1 h2
-
-/-- F-C18a witness: as coded, `{"feature_name": ["A"], "gene": ["B"]}` yields the name `B`; the reference
-    predicate rejects it, the reversed dictionary yields `A`, and the repaired rule yields `A` for both. -/
+/-- F-C18a witness (the code as it is): `{"feature_name": ["A"], "gene": ["B"]}` yields the name `B`; the reference
+    predicate rejects it, the reversed dictionary yields `A`, and the patched rule yields `A` for both. -/
 theorem f_c18a_witness :
-    ansQ (extractWith Rule.asCoded [("feature_name".toList, ["A".toList]), ("gene".toList, ["B".toList])])
+    ansQ (extract [("feature_name".toList, ["A".toList]), ("gene".toList, ["B".toList])])
       = some (some "B".toList, none) ∧
     okExtract [("feature_name".toList, ["A".toList]), ("gene".toList, ["B".toList])] (some (some "B".toList, none))
       = false ∧
-    ansQ (extractWith Rule.asCoded [("gene".toList, ["B".toList]), ("feature_name".toList, ["A".toList])])
+    ansQ (extract [("gene".toList, ["B".toList]), ("feature_name".toList, ["A".toList])])
       = some (some "A".toList, none) ∧
     ansQ (extractWith Rule.repaired [("feature_name".toList, ["A".toList]), ("gene".toList, ["B".toList])])
       = some (some "A".toList, none) := by
   decide +kernel
 
-/-- F-C18b witness: as coded, the look-alike key `"gene\n"` passes the `^gene$` regex and the enum lookup of
-    `"GENE\n"` raises KeyError; the property demands `(None, None)`, which the repaired rule returns. -/
-theorem f_c18b_witness :
+/-- F-C18b regression fact: before 5ed9681 (`re.match` with `$`) the look-alike key `"gene\n"` passed the regex
+    and the enum lookup of `"GENE\n"` raised KeyError; the code as it is returns `(None, None)`, as demanded. -/
+theorem f_c18b_before_repair :
     (match extractWith Rule.asCoded [("gene\n".toList, ["x".toList])] with
       | .error .keyError => true
       | _ => false) = true ∧
-    okExtract [("gene\n".toList, ["x".toList])] (some (none, none)) = true ∧
-    ansQ (extractWith Rule.repaired [("gene\n".toList, ["x".toList])]) = some (none, none) := by
+    ansQ (extract [("gene\n".toList, ["x".toList])]) = some (none, none) ∧
+    okExtract [("gene\n".toList, ["x".toList])] (some (none, none)) = true := by
   decide +kernel
 
 /-- T3: `extract_feature_types` — the resulting set is the initial set plus every value of every key that
@@ -147,26 +182,38 @@ theorem group_order_independent (fs fs' : List Feat) (hp : fs.Perm fs')
     (∃ gs gs', groupByLocusTag fs = .ok gs ∧ groupByLocusTag fs' = .ok gs' ∧ GroupsEquiv gs gs') :=
   group_perm hp hc
 
-/-- T6 (exact matching, the proposed `fullmatch`): `filter_and_sort_qualifiers` drops exactly the reserved
-    BioCantor / GFF3 keys, keeps the others in order with sorted values, and reports an empty result as `None`.
-    (`terms_perm`, used in the proof, ties the model's regex alternatives to the spec's documented key list.) -/
-theorem filter_sort_spec (q : QDict) : okFilterSort q (some (filterSortWith true q)) = true :=
+/-- T6 (the code as it is, `re.fullmatch` since 245297c): `filter_and_sort_qualifiers` drops exactly the reserved
+    BioCantor / GFF3 keys, keeps the others in order with sorted values, and reports an empty result as `None`. -/
+theorem filter_sort_spec (q : QDict) : okFilterSort q (some (filterSort q)) = true :=
   filterSort_exact_ok q
 
-/- FULL STATEMENT for the code as it is (does NOT hold — F-C11b): ∀ q, okFilterSort q (some (filterSortWith false q)).
-   Proved part: dictionaries in which no key merely STARTS with a reserved term. -/
-
-/-- T6 for the code as written (`re.match` = prefix match), when no key has a reserved term as a strict prefix. -/
-theorem filter_sort_asCoded_partial (q : QDict)
-    (h : ∀ e ∈ q, ∀ t ∈ biocantorQualifierTerms, t.isPrefixOf e.1 = true → t = e.1) :
-    okFilterSort q (some (filterSortWith false q)) = true := by
-  rw [filterSort_coded_eq q h]; exact filterSort_exact_ok q
-
-/-- F-C11b witness: the user key `identity` is matched by the regex as coded (it starts with `id`) although it is
-    not a reserved key. -/
-theorem f_c11b_witness :
+/-- F-C11b regression fact: before 245297c (`re.match` = prefix match) the user key `identity` was matched (it
+    starts with `id`) although it is not a reserved key; dictionaries without such keys were treated alike. -/
+theorem f_c11b_before_repair :
     reservedMatch false "identity".toList = true ∧ reservedMatch true "identity".toList = false ∧
     reservedKeys.contains "identity".toList = false := by
+  decide +kernel
+
+/-- T7 (the code as it is, 3370634): the gene biotype of a locus is a transcript biotype of MAXIMAL count and, among
+    those, of least name — for every transcript list (`None`/raise only for an empty list). -/
+theorem gene_biotype_spec (types : List Str) : okBiotype types (geneBiotype types) = true :=
+  geneBiotype_ok types
+
+/-- T7b: … hence it does not depend on the order of the transcript records, for ANY transcript list. -/
+theorem gene_biotype_order_independent (types types' : List Str) (hp : types.Perm types') :
+    geneBiotype types' = geneBiotype types := by
+  have ha := geneBiotype_ok types
+  have hb := geneBiotype_ok types'
+  rw [← okBiotype_perm hp] at hb
+  exact okBiotype_unique hb ha
+
+/-- F-C18c regression fact: `Counter.most_common(1)` (before 3370634) answered tRNA or ncRNA for one tRNA and one
+    ncRNA depending on the record order; the code as it is answers ncRNA for both orders. -/
+theorem f_c18c_before_repair :
+    geneBiotypeOld ["tRNA".toList, "ncRNA".toList] = some "tRNA".toList ∧
+    geneBiotypeOld ["ncRNA".toList, "tRNA".toList] = some "ncRNA".toList ∧
+    geneBiotype ["tRNA".toList, "ncRNA".toList] = some "ncRNA".toList ∧
+    geneBiotype ["ncRNA".toList, "tRNA".toList] = some "ncRNA".toList := by
   decide +kernel
 
 -- non-vacuity of the hypotheses: a dictionary in the domain with distinct ranks, mixed case, look-alikes
@@ -175,14 +222,12 @@ example : extractDomain [("Gene".toList, ["g".toList]), ("ID".toList, ["i".toLis
     ("genes".toList, []), ("note".toList, ["n".toList]), ("feature_name".toList, ["f".toList])] = true := by decide
 example : ranksDistinct nameOrder [("Gene".toList, ["g".toList]), ("LABEL".toList, ["l".toList]),
     ("feature_name".toList, ["f".toList])] = true := by decide
-example : ∀ e ∈ ([("Gene".toList, ["g".toList]), ("id".toList, ["i".toList])] : QDict),
-    rank nameOrder e.1 ≠ some 0 ∧ rank idOrder e.1 ≠ some 0 ∧ e.1.getLast? ≠ some '\n' := by decide
+example : ∀ e ∈ ([("Gene".toList, ["g".toList]), ("id".toList, ["i".toList]), ("gene\n".toList, [])] : QDict),
+    rank nameOrder e.1 ≠ some 0 ∧ rank idOrder e.1 ≠ some 0 := by decide
 example : ∀ f ∈ ([⟨"b".toList, .transcript, 0⟩, ⟨"a".toList, .cds, 1⟩, ⟨"b".toList, .gene, 2⟩, ⟨"a".toList, .cds, 3⟩,
     ⟨"b".toList, .transcript, 4⟩] : List Feat),
     singleChain [⟨"b".toList, .transcript, 0⟩, ⟨"a".toList, .cds, 1⟩, ⟨"b".toList, .gene, 2⟩, ⟨"a".toList, .cds, 3⟩,
       ⟨"b".toList, .transcript, 4⟩] f.tag = true := by decide
-example : ∀ e ∈ ([("note".toList, ["b".toList, "a".toList]), ("gene_id".toList, []), ("Note".toList, [])] : QDict),
-    ∀ t ∈ biocantorQualifierTerms, t.isPrefixOf e.1 = true → t = e.1 := by decide +kernel
 example : keysDistinct [("a".toList, ["y".toList, "x".toList]), ("b".toList, [])] = true := by decide
 
 end BioCantor.Props.C18
